@@ -342,6 +342,11 @@ theorem normInf_spec (a : Array ℝ) (h : 0 < a.size) :
     · unfold Vec.normInf Vec.normInfBy
       simp only [List.getElem?_toArray, List.getElem?_cons_zero]
       rw [hex, ← Array.foldl_toList]
+      -- (repair D14) the NaN test `|x| != |x|` of `norm_inf` never fires over ℝ
+      have hstep : (fun (r x : ℝ) => if ScalarExt.lt r (Transc.fabs x) || !(Transc.fabs x == Transc.fabs x) then Transc.fabs x else r)
+          = (fun r x => if ScalarExt.lt r (Transc.fabs x) then Transc.fabs x else r) := by
+        funext r x; simp
+      rw [hstep]
     · obtain ⟨h1, h2, h3⟩ := foldl_max_spec (fun x : ℝ => Transc.fabs x) t (Transc.fabs x0)
       constructor
       · intro i hi
